@@ -206,6 +206,30 @@ func H_C18_newmodel(v *zzverif.T) {
 				nil,
 			}
 		}
+		if v.Has("nodes") {
+			// nodes whose attributes are there but not as the operator expects them (whatever the loader chooses to
+			// look at before Run, it must not crash on): a Constant whose `value` has no tensor in it (the scalar sits
+			// in `f`, or nothing at all), a Constant without attributes, attributes without a name, an empty node
+			fv := zzverif.Sym[float32](v, "cf")
+			switch v.CStr("nodes") {
+			case "constant-value-without-tensor":
+				g.Node = append(g.Node, &onnx.NodeProto{OpType: "Constant", Output: []string{"c"},
+					Attribute: []*onnx.AttributeProto{{Name: "value", Type: onnx.AttributeProto_FLOAT, F: fv}}})
+			case "constant-value-typed-tensor-absent":
+				g.Node = append(g.Node, &onnx.NodeProto{OpType: "Constant", Output: []string{"c"},
+					Attribute: []*onnx.AttributeProto{{Name: "value", Type: onnx.AttributeProto_TENSOR}}})
+			case "constant-bare":
+				g.Node = append(g.Node, &onnx.NodeProto{OpType: "Constant", Output: []string{"c"}})
+				g.Node = append(g.Node, &onnx.NodeProto{OpType: "Constant"})
+			case "constant-undecodable-tensor":
+				g.Node = append(g.Node, &onnx.NodeProto{OpType: "Constant", Output: []string{"c"},
+					Attribute: []*onnx.AttributeProto{{Name: "value", Type: onnx.AttributeProto_TENSOR, T: &onnx.TensorProto{DataType: 1, Dims: []int64{3}, FloatData: []float32{fv}}}}})
+			case "odd-attributes":
+				g.Node = append(g.Node, &onnx.NodeProto{OpType: "Gemm", Input: []string{"w0", "w0"}, Output: []string{"o"},
+					Attribute: []*onnx.AttributeProto{{}, {Name: "alpha"}, {Name: "transA", Type: onnx.AttributeProto_TENSOR}, {Name: "value"}}})
+				g.Node = append(g.Node, &onnx.NodeProto{})
+			}
+		}
 		mp.Graph = g
 	}
 	var m *Model
@@ -217,7 +241,7 @@ func H_C18_newmodel(v *zzverif.T) {
 	}
 	v.Assert("C18.model-or-error", (m == nil) == (err != nil))
 	expectErr := !decodable || maxVersion != 13
-	if !anyDtype {
+	if !anyDtype && !v.Has("nodes") {
 		v.Assert("C18.refused-iff-undecodable-or-unsupported-opset", (err != nil) == expectErr)
 	}
 	if decodable && maxVersion != 13 {
